@@ -13,4 +13,21 @@ TEXT = {
  ),
 }
 
+TEXT["C07"] = dict(engine="kani",
+   technique="Kani complete (loop-free/fixed-trip, full-domain) harnesses on the real address conversion functions",
+   level="Complete proof over all 2^32 IPv4 and 2^128 IPv6 addresses that the source address put in the IP_PKTINFO control message "
+         "(std_to_libc_in_addr / std_to_libc_in6_addr, both copies) is in network byte order and is the exact inverse of RecvMsg::local_ip. "
+         "Only this clause of C07 (reply sent from the address it was addressed to) is decided.",
+   note="NOT decided by this family here: exactly-one-reply, own-answer under reordering/duplication/loss, retry/backoff/timeout bounds, TCP id->waiter map "
+        "(schedules and I/O faults; Kani has no threads, Verus would need its own permission types). Trusted: Kani/CBMC, libc struct layout.")
+TEXT["C08"] = dict(engine="kani",
+   technique="Kani complete harnesses: Prefix4/Prefix6 containment against a written-prefix spec for all addresses and prefix lengths",
+   level="Complete proof (symbolic u32/u128 addresses, all prefix lengths the loader admits) that contains() <=> the top min(len,W) bits agree with the written prefix, "
+         "host bits or not, including v4-mapped clients and ::ffff:a.b.c.d/len prefixes, and that netmask/network are total.",
+   note="Assumed: v6 prefixlen <= 128 (established by the loader fix c95f480, not yet under contract). ACL first-match logic and entry points: see coverage.functions_under_contract of the current evidence.")
+TEXT["C12"] = dict(engine="kani",
+   technique="Kani complete harness over all 65536 flag values on the real Dhcp::get_broadcast_flag",
+   level="Complete proof that get_broadcast_flag() <=> flags & 0x8000 != 0.",
+   note="Frame construction / codec round trip clauses: see evidence for what is under contract in this revision.")
+
 NA = {}
